@@ -460,6 +460,9 @@ func buildIntrinsics() map[string]*Native {
 	})
 	reg("internal/bytealg.MakeNoZero", func(ip *Interp, a []Value) Value {
 		n := ip.concInt(a[0], 0, 64)
+		if n < 0 || n > 1<<22 {
+			panic(pathEnd{Kind: "unwound", Msg: "huge allocation (MakeNoZero)" + ip.where()})
+		}
 		arr := make([]Value, n)
 		for i := range arr {
 			arr[i] = Const(SBV8, 0)
@@ -558,7 +561,21 @@ func buildIntrinsics() map[string]*Native {
 		sl, _ := b[1].(Slice)
 		return i64(int64(len(sl.A)))
 	})
-	reg("(*strings.Builder).Grow", func(ip *Interp, a []Value) Value { return nil })
+	reg("(*strings.Builder).Grow", func(ip *Interp, a []Value) Value {
+		n := ip.term(a[1])
+		if n.IsConst() {
+			if n.Int() < 0 {
+				panic(&targetPanic{V: Iface{T: types.Typ[types.String], V: MkStr("strings.Builder.Grow: negative count")}, Site: ip.curFnName(), Msg: "strings.Builder.Grow: negative count"})
+			}
+			if n.Int() > 1<<46 {
+				ip.rtPanic("makeslice: len out of range")
+			}
+			if n.Int() > 1<<24 {
+				panic(pathEnd{Kind: "unwound", Msg: "huge allocation (strings.Builder.Grow)" + ip.where()})
+			}
+		}
+		return nil
+	})
 	reg("(*strings.Builder).Reset", func(ip *Interp, a []Value) Value {
 		b, o := builder(ip, a[0])
 		ip.setCell(&b[1], o, Slice{})
@@ -963,6 +980,9 @@ func buildIntrinsics() map[string]*Native {
 			panic(&targetPanic{V: Iface{T: types.Typ[types.String], V: MkStr("invalid argument to Intn")}, Site: ip.curFnName(), Msg: "invalid argument to Intn"})
 		}
 		w := ip.W
+		if w.ex.Cfg.Params["CONCRETERAND"] == 1 {
+			return i64(0)
+		}
 		v := w.freshVar(SBV64)
 		w.inputs = append(w.inputs, Input{Kind: "aux", Vars: []*Term{v}})
 		w.addPC(ip.TC.And(ip.TC.SLe(i64(0), v), ip.TC.SLt(v, n)))
@@ -970,6 +990,9 @@ func buildIntrinsics() map[string]*Native {
 	})
 	reg("math/rand.Float64", func(ip *Interp, a []Value) Value {
 		w := ip.W
+		if w.ex.Cfg.Params["CONCRETERAND"] == 1 {
+			return ConstF64(0.5)
+		}
 		v := w.freshVar(SBV64)
 		w.inputs = append(w.inputs, Input{Kind: "aux", Vars: []*Term{v}})
 		f := ip.TC.FFromBits(v)
